@@ -127,6 +127,24 @@ func (s *scanSpec) expected() map[probeKey]int {
 	return want
 }
 
+// probeBound is a cheap upper bound of the number of probes (exclusions ignored; never enumerates).
+func (s *scanSpec) probeBound() uint64 {
+	nports := uint64(0)
+	for _, r := range s.Ports {
+		nports += uint64(r.Hi - r.Lo + 1)
+	}
+	if nports == 0 {
+		nports = 1
+	}
+	switch s.Mode {
+	case "subnet":
+		return (uint64(1) << uint(32-s.Subnet.Bits)) * nports
+	case "pairs":
+		return uint64(len(s.Entries))
+	}
+	return uint64(len(s.Entries)) * nports
+}
+
 func (s *scanSpec) nprobes() int {
 	n := 0
 	for _, v := range s.expected() {
@@ -250,6 +268,12 @@ func (s *scanSpec) world() *WorldSpec {
 	}
 	w.Stdin = stdin
 	w.Argv = argv
+	// step budget of one execution: an ordinary scan needs 15..40 scheduling steps per probe; the
+	// generous bound below only decides how soon a program that spins without making progress is
+	// cut off (and reported as not returning) instead of burning the wall-clock budget of the run
+	if np := s.probeBound(); np > 0 && np < 1_000_000 {
+		w.maxSteps = 400_000 + 200*int(np) + 3_000*len(s.Ports)
+	}
 	return w
 }
 
